@@ -13,11 +13,19 @@ Theorem C07_wrkchain_primitive_bodies_as_reviewed :
    ("GetHighestWrkChainID", "a9fe330044e47ebc");
    ("GetLastWrkChainHeightInState", "6655857512cc6447");
    ("GetParamDefaultStorageLimit", "40d21abf76583945");
+   ("GetParamDenom", "c4773798fc1cc0de");
    ("GetParamMaxStorageLimit", "da6fbdd300103325");
+   ("GetParamPurchaseStorageFee", "cbdc5c47a588db40");
+   ("GetParamRecordFee", "43ac96b86ee8610f");
+   ("GetParamRegistrationFee", "0b5061c24b8c25b5");
    ("GetParams", "e5651d249a1817ba");
+   ("GetPurchaseStorageFeeAsCoin", "4c3fbdc71a568311");
+   ("GetRecordFeeAsCoin", "12381be07e186e84");
+   ("GetRegistrationFeeAsCoin", "077a30b7bd90d777");
    ("GetWrkChain", "7f5a4824f26f81b9");
    ("GetWrkChainOwner", "9b7eae50aad15f7f");
    ("GetWrkChainStorageLimit", "22a7132a7e1bf2d6");
+   ("GetZeroFeeAsCoin", "490a8edf1c700cf0");
    ("HasWrkChainStorageLimit", "39ace42df9e9424d");
    ("IsAuthorisedToRecord", "06eec4e3bf3d493d");
    ("IsWrkChainBlockRecorded", "a2a491560cc11770");
@@ -43,8 +51,16 @@ Theorem C07_beacon_primitive_bodies_as_reviewed :
    ("GetBeaconStorageLimit", "ac78ecddd75c9fd7");
    ("GetHighestBeaconID", "5e0b9a7111190145");
    ("GetParamDefaultStorageLimit", "40d21abf76583945");
+   ("GetParamDenom", "c4773798fc1cc0de");
    ("GetParamMaxStorageLimit", "da6fbdd300103325");
+   ("GetParamPurchaseStorageFee", "cbdc5c47a588db40");
+   ("GetParamRecordFee", "43ac96b86ee8610f");
+   ("GetParamRegistrationFee", "0b5061c24b8c25b5");
    ("GetParams", "e5651d249a1817ba");
+   ("GetPurchaseStorageFeeAsCoin", "4c3fbdc71a568311");
+   ("GetRecordFeeAsCoin", "12381be07e186e84");
+   ("GetRegistrationFeeAsCoin", "077a30b7bd90d777");
+   ("GetZeroFeeAsCoin", "490a8edf1c700cf0");
    ("HasBeaconStorageLimit", "a5d7bc6a8f1a79d7");
    ("IsAuthorisedToRecord", "102ddfd584d6e4de");
    ("IsBeaconRegistered", "db23b52aa0a27acd");
